@@ -61,6 +61,11 @@ theorem only_spellings_read (w : List Char) (s : Suffix) (h : condenseSuffix w =
     | [_], hl => simp at hl
     | _ :: _ :: _ :: _, hl => simp at hl
 
+/-- non-vacuity of `only_spellings_read`: `ST` is read as a suffix, and the theorem places it among
+the sixteen spellings -/
+example : condenseSuffix ['S', 'T'] = .ok (some .st) ∧ (['S', 'T'], Suffix.st) ∈ suffixSpellings :=
+  ⟨by rfl, only_spellings_read _ _ (by rfl)⟩
+
 /-- **A lint exactly when the suffix is wrong** (token level): for a number token holding the
 integer written `ds`, carrying suffix `s`, the rule reports iff `s` is not the English suffix.
 (`2 ≤ sp.stop`: the token has room for two suffix letters — `pulled_by(2)`; true of every token
@@ -70,6 +75,12 @@ theorem lint_iff_wrong (ds : List Nat) (hne : ds ≠ []) (hd : ∀ d ∈ ds, d <
     (lintNumber ⟨.int (ofDigits ds), some s, sp⟩).isSome ↔ s ≠ ordinalOfDigits ds := by
   rw [lintNumber_int _ s _ sp h2 (correctSuffix_spec ds hne hd)]
   split <;> simp_all
+
+/-- non-vacuity of `lint_iff_wrong`: `22st` occupying `[4, 8)` — all hypotheses hold, the suffix is
+wrong and the rule reports; `22nd` in the same place is not reported -/
+example : [2, 2] ≠ [] ∧ (∀ d ∈ [2, 2], d < 10) ∧ 2 ≤ (⟨4, 8⟩ : Span).stop ∧
+    (lintNumber ⟨.int (ofDigits [2, 2]), some .st, ⟨4, 8⟩⟩).isSome = true ∧
+    (lintNumber ⟨.int (ofDigits [2, 2]), some .nd, ⟨4, 8⟩⟩).isSome = false := by decide
 
 /-- **A lint exactly when the suffix is wrong** (as written): digits `ds` at position `p` directly
 followed by a spelling `w` of suffix `s`. -/
